@@ -21,6 +21,7 @@ Honest note: this is symbolic execution degenerating to solver-driven bounded-ex
 of labelled dependency graphs (all graphs on n targets, n <= 4 quick, n <= 5 thorough).
 """
 import os
+import sys
 from symx.harness import Harness
 from symx.core import sym_and, sym_or, sym_not, implies, is_sym
 from ref import domdef
@@ -49,14 +50,86 @@ ASSUMPTIONS = [
 SHIMS_USED = ["isinstance"]
 JOB_TIMEOUT = {"quick": 170, "thorough": 1700}
 
+# target names whose str hashes (PYTHONHASHSEED=0) do not collide in CPython's set tables, so a set of
+# any subset iterates in one fixed global order (verified at run time by iteration_order(); if it does not
+# hold, e.g. under another hash seed, the harness falls back to row-wise eager materialisation)
 NAMESETS = {
-    0: ["t0", "t1", "t2", "t3", "t4", "t5"],
-    1: ["compile", "link", "all", "docs", "zz", "a"],
+    0: ["d", "compile", "f", "dist", "t0"],          # set order = index order
+    1: ["link", "t5", "app", "kernel", "hex"],       # set order = 4, 1, 2, 0, 3
 }
 
 
+def iteration_order(names):
+    """A global order of `names` such that a CPython set holding ANY subset of them iterates in that order
+    (true when the names' hash slots do not collide; depends on PYTHONHASHSEED), else None.  Checked by
+    building every subset - this is what makes element-wise lazy materialisation faithful."""
+    order = list(set(names))
+    n = len(names)
+    for mask in range(1 << n):
+        sub = [names[i] for i in range(n) if (mask >> i) & 1]
+        if list(set(sub)) != [x for x in order if x in sub]:
+            return None
+        s2 = set()
+        for x in reversed(sub):
+            s2.add(x)
+        if list(s2) != [x for x in order if x in sub]:
+            return None
+    return order
+
+
+class LazyDeps(set):
+    """A target's dependency set whose members are decided one at a time (fork on the edge boolean)
+    as far as ppci's iteration over it proceeds.  Python-level iteration yields exactly the sequence a
+    fully built set would yield (see iteration_order); any other access builds the whole set first.
+    Used in symbolic runs only: the concrete re-run of every path uses a plain eager set, so a C-level
+    read of a partially built set would show up as an encoding mismatch (exit 3)."""
+
+    def __init__(self, cands):
+        set.__init__(self)
+        self._pending = list(cands)     # [(name, edge_bool)] in set-iteration order
+        self._seq = []
+
+    def _step(self):
+        name, b = self._pending.pop(0)
+        if b:                           # fork point
+            self._seq.append(name)
+            set.add(self, name)
+
+    def _full(self):
+        while self._pending:
+            self._step()
+
+    def __iter__(self):
+        k = 0
+        while True:
+            if k < len(self._seq):
+                yield self._seq[k]
+                k += 1
+            elif self._pending:
+                self._step()
+            else:
+                return
+
+
+def _forward(name):
+    def f(self, *a, **kw):
+        self._full()
+        return getattr(set, name)(self, *a, **kw)
+    f.__name__ = name
+    return f
+
+
+for _m in ("__contains__", "__len__", "__eq__", "__ne__", "__le__", "__lt__", "__ge__", "__gt__", "__and__",
+           "__or__", "__sub__", "__xor__", "__rand__", "__ror__", "__rsub__", "__rxor__", "__iand__", "__ior__",
+           "__isub__", "__ixor__", "__repr__", "__reduce__", "copy", "union", "intersection", "difference",
+           "symmetric_difference", "issubset", "issuperset", "isdisjoint", "add", "remove", "discard", "pop",
+           "clear", "update", "intersection_update", "difference_update", "symmetric_difference_update"):
+    setattr(LazyDeps, _m, _forward(_m))
+
+
 def _build(tasks, n, names, rows, log):
-    """real Project/Targets; rows[i][j] truthy = i depends on j (decided lazily on first read)"""
+    """real Project/Targets; rows[i][j] truthy = i depends on j, decided when ppci first looks"""
+    order = iteration_order(names)
 
     class LazyTarget(tasks.Target):
         _rows = None
@@ -65,10 +138,21 @@ def _build(tasks, n, names, rows, log):
         @property
         def dependencies(self):
             if self._deps is None:
-                self._deps = set()
-                for j, b in enumerate(self._rows):
-                    if b:                       # fork point (symbolic run) / plain bool (replay)
-                        self._deps.add(names[j])
+                row = self._rows
+                if order is not None and any(is_sym(b) for b in row):
+                    self._deps = LazyDeps([(x, row[names.index(x)]) for x in order])
+                else:
+                    self._deps = set()
+                    for j, b in enumerate(row):
+                        if b:                   # fork point (symbolic run) / plain bool (replay)
+                            self._deps.add(names[j])
+            if type(self._deps) is LazyDeps and self._deps._pending:
+                # element-wise laziness only pays off in the loop detection, which stops at the first
+                # offending dependency; every other reader gets the completely built set (C-level readers
+                # such as set.union()/set() bypass LazyDeps.__iter__ and must never see a partial set)
+                caller = sys._getframe(1).f_code
+                if not (caller.co_name == "dfs" and caller.co_filename.endswith("tasks.py")):
+                    self._deps._full()
             return self._deps
 
         @dependencies.setter
@@ -94,6 +178,7 @@ class BuildHarness(Harness):
     W = 8
     max_paths = 3000000
     max_decisions = 200
+    prove_arrays = False      # pure boolean formulas: skip the per-query array-sort scan of the prover
 
     def __init__(self, n, nameset=0, req=None, selfdep=True):
         self.n = n
@@ -174,8 +259,67 @@ class BuildHarness(Harness):
         }
 
 
+class ClosureHarness(Harness):
+    """Project.dependencies(t) is the set of targets reachable from t by >= 1 dependency edges and
+    Target.__gt__(a, b) says 'a depends (transitively) on b' - the two mechanisms the runner orders by.
+    Premise (what TaskRunner.run establishes first via check_target): no cycle reachable from t."""
+    shim_modules = ()
+    W = 8
+    max_paths = 3000000
+    max_decisions = 200
+    prove_arrays = False
+
+    def __init__(self, n, nameset=0):
+        self.n = n
+        self.nameset = nameset
+        self.name = f"tasks.dependencies[n={n},names={nameset}]"
+        self.params = dict(n=n, nameset=nameset)
+        self._formulas = None
+
+    def inputs(self, mk):
+        n = self.n
+        e = [[mk.bool(f"e_{i}_{j}") for j in range(n)] for i in range(n)]
+        root = [k == 0 for k in range(n)]
+        mk.assume(sym_not(domdef.has_cycle_reachable(e, n, root)))
+        return dict(e=e)
+
+    def run(self, inp):
+        from ppci.build import tasks
+        n = self.n
+        names = NAMESETS[self.nameset][:n]
+        project = _build(tasks, n, names, inp["e"], [])
+        deps = project.dependencies(names[0])
+        t0 = project.get_target(names[0])
+        gt = [t0 > project.get_target(names[j]) for j in range(n)]
+        return [sorted(names.index(x) for x in deps), gt]
+
+    def post(self, inp, out):
+        if not out.ok:
+            return {"no-exception": False}
+        n = self.n
+        e = inp["e"]
+        symbolic = any(is_sym(x) for row in e for x in row)
+        if symbolic and self._formulas is not None:
+            plus = self._formulas
+        else:
+            plus = domdef.reach_plus(e, n)[0]
+            if symbolic:
+                self._formulas = plus
+        deps, gt = out.value
+        return {
+            "dependencies-is-transitive-closure":
+                sym_and(True, *[(plus[j] if j in deps else sym_not(plus[j])) for j in range(n)]),
+            "gt-is-depends-on":
+                sym_and(True, *[(plus[j] if gt[j] else sym_not(plus[j])) for j in range(n)]),
+        }
+
+
 def mk_build(n, nameset=0, req=None, selfdep=True):
     return BuildHarness(n, nameset, req, selfdep)
+
+
+def mk_closure(n, nameset=0):
+    return ClosureHarness(n, nameset)
 
 
 def jobs(tier, seed):
@@ -192,7 +336,10 @@ def jobs(tier, seed):
             for req in range(1, 16):
                 js.append(("mk_build", dict(n=4, nameset=ns, req=req)))
         for req in range(1, 32):
-            js.append(("mk_build", dict(n=5, nameset=0, req=req, selfdep=False)))
+            js.append(("mk_build", dict(n=5, nameset=0, req=req, selfdep=True)))
+    for ns in ((0,) if tier == "quick" else (0, 1)):
+        for n in ((1, 2, 3, 4) if tier == "quick" else (1, 2, 3, 4, 5)):
+            js.append(("mk_closure", dict(n=n, nameset=ns)))
     # big jobs first
     js.sort(key=lambda j: -j[1]["n"])
     only = os.environ.get("VERIF_ONLY")
